@@ -15,7 +15,9 @@
 (* part: invariants ScaleSame, IndirectSame), and every program is printed *)
 (* with its variants; the Go replayer renders them with the real           *)
 (* vec.Rasterizer and compares pixel buffers.  VecRasterizer: the          *)
-(* configured compositing operator is used by the first Draw only.         *)
+(* configured compositing operator is used by the first Draw only; a       *)
+(* target rectangle that is empty (no width or height, or Min beyond Max)  *)
+(* contains no pixel, so nothing may change.                               *)
 (***************************************************************************)
 EXTENDS Renderer, TLC, Json, FiniteSets
 
@@ -27,7 +29,7 @@ K(k) == OfScaled(k, 6)                                  \* k/64
 Co(op, ks) == [Mk(op, 0, 0, 0) EXCEPT !.f = [i \in 1..Len(ks) |-> K(ks[i])], !.role = "coord"]
 
 Paints == {"opaque", "translucent", "linear", "radial", "transparent"}
-Shapes == {"tri", "curves", "disc", "smooth"}
+Shapes == {"tri", "curves", "disc", "smooth", "ring"}
 
 (* styling calls that put the paint into CREG[0] (CSEL = 0) *)
 PaintCalls(p) ==
@@ -63,6 +65,8 @@ ShapeCalls(s, o) ==
                           Co("RelVLineTo", << 384 >>), Mk("ClosePathEndPath", 0, 0, 0) >>
     [] s = "disc" -> << sp(-1536, 128), arc("RelArcTo", 1536, 3072, 0, << 0, 1 >>), arc("RelArcTo", 1536, -3072, 0, << 0, 1 >>),
                         Mk("ClosePathEndPath", 0, 0, 0) >>
+    \* almost a full circle drawn by one arc: the end point is two lattice steps (1/32) from the start
+    [] s = "ring" -> << sp(-64, -896), arc("RelArcTo", 1024, 2, 0, << 1, 1 >>), Mk("ClosePathEndPath", 0, 0, 0) >>
     [] s = "smooth" -> << sp(-1408, 512), Co("RelQuadTo", << 448, -1280, 896, 0 >>), Co("RelSmoothQuadTo", << 896, 0 >>),
                           Co("AbsSmoothQuadTo", << 1408 + o, 768 >>), Co("AbsVLineTo", << 1280 >>),
                           Mk("ClosePathEndPath", 0, 0, 0) >>
@@ -138,6 +142,7 @@ NDraws == Cardinality({ j \in 1..Len(Log(Prog, Rect0)) : Log(Prog, Rect0)[j].k =
 Strip(P) == [i \in 1..Len(P) |-> [op |-> P[i].op, adj |-> P[i].adj, incr |-> P[i].incr, sel |-> P[i].sel,
                                   f |-> P[i].f, c |-> P[i].c, fl |-> P[i].fl, pal |-> P[i].pal]]
 Emit == done => PrintT(ToJson([diag |-> "pixels", prog |-> Strip(Prog), ndraws |-> NDraws,
-                               scaled |-> [k \in {-1, 1, 2} |-> Strip(ScaleProg(Prog, k))],
+                               \* -15, +14: far off the model's 1/64 lattice (not covered by ScaleSame), same exactness argument
+                               scaled |-> [k \in {-15, -1, 1, 2, 14} |-> Strip(ScaleProg(Prog, k))],
                                indirect |-> [w \in 1..3 |-> Strip(IndirectVariant(w))]]))
 =============================================================================
